@@ -112,7 +112,10 @@ def gen_program(rng, ntokens, maxlen):
     if rng.random() < 0.35:
         wanted = ["root_attach", rng.choice(["negra_mark_heads", "mark_heads_negra",
                                              "mark_heads_ptb"]), "boyd_split", "raising"]
-        n = max(n, 4)
+        if rng.random() < 0.3:
+            # a node-adding step between the split and the raising
+            wanted.insert(3, rng.choice(["binarize", "binarize", "binarize_bare", "add_topnode"]))
+        n = max(n, len(wanted))
     while len(prog) < n:
         en = enabled_ops(state, ntokens)
         if wanted and wanted[0] in en and rng.random() < 0.75:
@@ -314,10 +317,16 @@ def judge_program(p, recs, st):
                         del exp[lab]
             if history and history[-1][0] == "boyd_split":
                 st.probe("raising_directly_after_boyd_split")
-                if after != history[-1][1]:
+            # independent of the flags found in the tree: raising undoes the multiplication
+            # of boyd_split and removes nothing else, so what comes out is the multiset
+            # before the split plus the nodes documented as added since (@-nodes, TOP)
+            want = pending_split_multiset(history, before)
+            if want is not None:
+                st.probe("raising_judged_against_pre_split_multiset")
+                if after != want:
                     viols.append(cm.viol("C04/labels/raising/not-restoring-pre-split-multiset",
                                          step=step, program=p["ops"][:step + 1],
-                                         diff=ms_diff(history[-1][1], after)))
+                                         diff=ms_diff(want, after)))
                     return viols
         elif fn == "binarize":
             non_at = dict((k, v) for k, v in after.items()
@@ -354,6 +363,42 @@ def judge_program(p, recs, st):
     return viols
 
 
+def pending_split_multiset(history, before_now):
+    """Label multiset expected after `raising`, from the multiset before the last boyd_split
+    and the documented additions since; None when the steps in between change labels in
+    another way (collapsing) or another split / raising intervenes."""
+    idx = None
+    for i in range(len(history) - 1, -1, -1):
+        if history[i][0] == "raising":
+            return None
+        if history[i][0] == "boyd_split":
+            idx = i
+            break
+    if idx is None:
+        return None
+    # only the first split since the last raising is modelled
+    for h in reversed(history[:idx]):
+        if h[0] == "raising":
+            break
+        if h[0] == "boyd_split":
+            return None
+    want = dict(history[idx][1])
+    for j in range(idx + 1, len(history)):
+        fn, before = history[j]
+        after = history[j + 1][1] if j + 1 < len(history) else before_now
+        if fn in ("collapse_unary_chains", "uncollapse_unary_chains"):
+            return None
+        if fn == "add_topnode":
+            want["TOP"] = want.get("TOP", 0) + 1
+        elif fn in ("binarize",):
+            for k, v in after.items():
+                if isinstance(k, str) and k.startswith("@"):
+                    d = v - before.get(k, 0)
+                    if d:
+                        want[k] = want.get(k, 0) + d
+    return want
+
+
 PUNCT_ALL = set(model.W_PUNCT + model.W_PAIR + model.W_PAREN)
 
 
@@ -363,6 +408,7 @@ def execute(sc, sim):
                "unary_node_over_punctuation", "punctuation_only_sentence", "unary_chain_at_root",
                "one_token_sentence", "uncollapse_after_collapse",
                "raising_directly_after_boyd_split", "boyd_split_gap_degree_2plus",
+               "raising_judged_against_pre_split_multiset",
                "two_programs_interleaved", "binarize_rejected_unmarked_node",
                "collapse_to_leaf_root_disclaimed")
     spec = build_spec(sc)
